@@ -190,6 +190,7 @@ fn generate(rng: &mut Rng) -> C16Sc {
             clients,
             stop_at_ns: None,
             stop_before: false,
+            yields_before_stop: 0,
             cap_ns: uptime + secs(700),
         },
         hostile_kinds: kinds,
